@@ -242,10 +242,52 @@ def r5_external_and_semicolons(ctx, rep):
     c02.r3_scanners(ctx, rep)
 
 
+
+def r6_association_scoping_and_pushback(ctx, rep):
+    """(a) an ASSOCIATE name is looked up in the innermost batch first; (b) a line handed back to the reader is the
+    next one it returns, also when `;`-separated statements are still pending"""
+    py = ctx.py
+    for m in ("__getitem__", "__contains__"):
+        fn = py.func(f"Associations.{m}")
+        its = [n.iter for n in ast.walk(fn) if isinstance(n, (ast.For, ast.comprehension)) and "_batches" in ast.unparse(n.iter)]
+        maps = [c for c in py.walk_calls(fn) if call_name(c).split(".")[-1] == "ChainMap" and "_batches" in ast.unparse(c)]
+        props = []
+        for c in ast.walk(fn):
+            if isinstance(c, ast.Attribute) and isinstance(c.value, ast.Name) and c.value.id == "self" and c.attr != "_batches":
+                r = py.resolve_method("Associations", c.attr)
+                if r is not None:
+                    its += [n.iter for n in ast.walk(r[1]) if isinstance(n, (ast.For, ast.comprehension)) and "_batches" in ast.unparse(n.iter)]
+                    maps += [k for k in py.walk_calls(r[1]) if call_name(k).split(".")[-1] == "ChainMap" and "_batches" in ast.unparse(k)]
+        if not its and not maps:
+            raise AnalysisError(f"Associations.{m}: no traversal of the batches found")
+        inner_first = all("reversed(" in ast.unparse(i) or "[::-1]" in ast.unparse(i) for i in its) and \
+            all("reversed(" in ast.unparse(k) or "[::-1]" in ast.unparse(k) for k in maps)
+        rep.ob(f"Associations.{m} searches the innermost ASSOCIATE first", inner_first,
+               "batches are traversed from the last one added" if inner_first else
+               "the batches are searched outermost-first: a name re-bound by a nested ASSOCIATE resolves to the outer selector, so "
+               "`call part%start()` is recorded for the wrong type", py.nloc(fn))
+    pb = py.func("FortranReader.pass_back")
+    front = False
+    for n in ast.walk(pb):
+        if isinstance(n, ast.Call) and isinstance(n.func, ast.Attribute) and ast.unparse(n.func.value) == "self.pending":
+            if n.func.attr == "insert" and n.args and ast.unparse(n.args[0]) == "0":
+                front = True
+            if n.func.attr == "appendleft":
+                front = True
+        if isinstance(n, ast.Assign) and ast.unparse(n.targets[0]) == "self.pending" and isinstance(n.value, ast.BinOp) \
+                and isinstance(n.value.left, ast.List) and ast.unparse(n.value.right) == "self.pending":
+            front = True
+    rep.ob("pass_back re-queues the line at the front of the pending statements", front,
+           "the line handed back is returned next" if front else
+           "pass_back puts the line behind the statements still pending from a `;`-separated source line: statements are "
+           "reordered (an END can overtake a CALL, which is then recorded for no one)", py.nloc(pb))
+
+
 RULES = [
     RuleSpec("C08.R5", r5_external_and_semicolons, "EXTERNAL handling order; exact `;` splitting (shared with C02.R3)", floor=2),
     RuleSpec("C08.R1", r1_not_scanned, "statements that must not be scanned", floor=15),
     RuleSpec("C08.R2", r2_filter_dominance, "filter dominance and de-duplication", floor=3),
     RuleSpec("C08.R3", r3_keyword_table, "keyword table", floor=21),
     RuleSpec("C08.R4", r4_call_forms, "call statement forms are recognised", floor=4),
+    RuleSpec("C08.R6", r6_association_scoping_and_pushback, "ASSOCIATE scoping and statement order on ;-lines", floor=3),
 ]
